@@ -1,6 +1,6 @@
 //! C10 — building is total: Ok or a documented Err, never a panic, overflow or hang.
 
-use crate::engine::{fail, hex, panic_sig, Engine, Fail, Job, JobCtx, Obs, VERIF_DIR};
+use crate::engine::{fail, hex, panic_sig, Engine, Fail, Job, JobCtx, Obs, verif_dir};
 use crate::fq::{build, BuildCase, BuildErr, Opts};
 use crate::gens::pick;
 use proptest::collection::vec;
@@ -72,7 +72,7 @@ pub fn on_timeout(e: &Engine, hung: &[Value]) {
         if case.is_null() {
             continue;
         }
-        let dir = format!("{}/replays/{}", VERIF_DIR, e.id);
+        let dir = format!("{}/replays/{}", verif_dir(), e.id);
         let _ = std::fs::create_dir_all(&dir);
         let path = format!("{}/hang-{:016x}.json", dir, crate::engine::hash_value(case));
         let doc = json!({"property": e.id, "format": 1, "case": case, "signature": "hang", "observed": "build did not return within the watchdog limit"});
